@@ -61,6 +61,10 @@ CHECKS = {
   'weakest level claimed: snapshots are taken at random points of C11-style histories (identifier, keyword, non-identifier and empty names; layered handles) and compared path by path, again after further mutations of the map; setattr/delattr attempted at every level. No schedule or fault dimension exists for this property; it rides on the restree histories as an invariant.',
   'trusted: snapshot model (copy of the tree model at the instant of the snapshot); known finding K3 (__x names) avoided by the generator and re-demonstrated on every run',
   'deterministic simulation (invariant riding on tree histories): snapshot vs. model path by path'),
+ 'C16': ('popul', 'exploration', 'DESIGN.md 3/C16',
+  'real scratch directory trees, real DirectoryResourcePopulator, seeded sibling listing order through a glob shim whose result set is cross-checked against the real glob on every call; option matrix nest x trim at construction and per call, pre-populated maps, repeated population, rules over existing / nested / missing / regular-file paths with extension filters; key set, factory arguments, map-ness of directories, conflict clauses (judged on what the recording factory observed when each handle was built) and ValueError for a file path.',
+  'trusted: os.path on the scratch file system; hidden files and stem==sibling-directory collisions are not generated; no I/O errors injected',
+  'deterministic simulation with a file-system listing-order seam; seeded tree/rule/option configurations'),
 }
 NA = {
  'C18': 'pure arithmetic on immutable tuples: no state, schedule, clock, I/O or fault for a simulator to decide (DESIGN.md section 3, C18)',
